@@ -6,6 +6,12 @@ namespace EupsModel.ShellEmit
 /-- the claimed alphabet of values -/
 def InAlphabet (v : Str) : Prop := ∀ c ∈ v, isSafe c = true ∨ isShMeta c = true
 
+/-- the values the claim is about: over the alphabet, or — the class `app.setup` single-quotes — any value without a
+single quote that is not already wrapped in quotes and holds a character of `[\s<>|&;()]`.  Inside the single
+quotes `$NAME`, `${NAME}`, backquotes, backslashes, double quotes, `~`, braces and glob characters are literal. -/
+def Writable (v : Str) : Prop :=
+  InAlphabet v ∨ (v.any needsQuote = true ∧ wrapped v = false ∧ ∀ c ∈ v, c ≠ 39)
+
 /-- equality of environments as maps -/
 def SameEnv (a b : Env) : Prop := ∀ k, a.get k = b.get k
 
@@ -35,7 +41,7 @@ def Cmd.text : Cmd → Str
 
 /-- commands whose evaluation `shEval` covers -/
 def Cmd.Good : Cmd → Prop
-  | .setVar k v => isIdent k = true ∧ InAlphabet v
+  | .setVar k v => isIdent k = true ∧ Writable v
   | .unsetVar k => isIdent k = true
   | .aliasDel k => isIdent k = true
   | _ => False
@@ -122,6 +128,24 @@ theorem emitVal_alpha {v : Str} (h : InAlphabet v) :
     · exact h1
     · exact absurd (List.any_eq_true.mpr ⟨c, hc, (meta_facts h1).2.2⟩) hm
 
+theorem alpha_writable {v : Str} (h : InAlphabet v) : Writable v := Or.inl h
+
+/-- the emitter's decision on a writable value: single-quoted (and then free of single quotes), or written as it is
+(and then made of safe characters) -/
+theorem emitVal_writable {v : Str} (h : Writable v) :
+    (emitVal v = 39 :: (v ++ [39]) ∧ ∀ c ∈ v, c ≠ 39) ∨ (emitVal v = v ∧ ∀ c ∈ v, isSafe c = true) := by
+  rcases h with h | ⟨hany, hw, hq⟩
+  · rcases emitVal_alpha h with h1 | h1
+    · exact Or.inl ⟨h1, alpha_no_sq h⟩
+    · exact Or.inr h1
+  · left
+    refine ⟨?_, hq⟩
+    have : v.isEmpty = false := by
+      cases v with
+      | nil => simp at hany
+      | cons _ _ => rfl
+    simp [emitVal, this, hw, hany]
+
 /-! ### feeding characters -/
 
 theorem feed_nil (st : Sh) : feed st [] = some st := rfl
@@ -187,7 +211,7 @@ theorem feed_keyword (env : Env) (kw : Str) (hkw : ∀ c ∈ kw, isSafe c = true
   rw [feed_append, feed_safe kw (clean env) rfl hkw hne]
   simp [feed_cons, feed_nil, stepChar, clean, endWord]
 
-theorem feed_setVar (env : Env) (k v : Str) (hk : isIdent k = true) (hv : InAlphabet v) :
+theorem feed_setVar (env : Env) (k v : Str) (hk : isIdent k = true) (hv : Writable v) :
     feed (clean env) (Cmd.text (.setVar k v)) = some (mid env [sExport] (k ++ 61 :: v)) := by
   have hks := ident_safe hk
   have hkne : k ≠ [] := by intro h; subst h; simp [isIdent] at hk
@@ -202,14 +226,14 @@ theorem feed_setVar (env : Env) (k v : Str) (hk : isIdent k = true) (hv : InAlph
   simp only [Option.bind_some]
   rw [feed_append, feed_safe (k ++ [61]) _ rfl hk61 (by simp)]
   simp only [Option.bind_some, Option.getD_none, List.nil_append]
-  rcases emitVal_alpha hv with h | ⟨h, hsafe⟩
+  rcases emitVal_writable hv with ⟨h, hnq⟩ | ⟨h, hsafe⟩
   · rw [h, feed_cons]
     have : stepChar { env := env, args := [sExport], cur := some (k ++ [61]), inq := false } 39 =
         some { env := env, args := [sExport], cur := some (k ++ [61]), inq := true } := by
       simp [stepChar]
     rw [this]
     simp only [Option.bind_some]
-    rw [feed_quoted v _ (k ++ [61]) rfl rfl (alpha_no_sq hv)]
+    rw [feed_quoted v _ (k ++ [61]) rfl rfl hnq]
     simp [mid]
   · rw [h]
     by_cases hve : v = []
@@ -524,7 +548,7 @@ theorem lookup_ofEnv (base : Env) (k : Str) : (OldEnv.ofEnv base).lookup k = (ba
 
 theorem emitVars_good (old : OldEnv) (base new : Env) (ht : Tracks old base)
     (hidb : ∀ p ∈ base, isIdent p.1 = true) (hidn : ∀ p ∈ new, isIdent p.1 = true)
-    (halpha : ∀ p ∈ new, old.lookup p.1 ≠ some (some p.2) → InAlphabet p.2) :
+    (halpha : ∀ p ∈ new, old.lookup p.1 ≠ some (some p.2) → Writable p.2) :
     ∀ c ∈ emitVarsOn {} old new, c.Good := by
   intro c hc
   simp only [emitVarsOn, List.mem_append, List.mem_filterMap] at hc
@@ -549,7 +573,7 @@ theorem emitVars_good (old : OldEnv) (base new : Env) (ht : Tracks old base)
 theorem roundtrip_tracks (old : OldEnv) (base new : Env) (ht : Tracks old base)
     (hidb : ∀ p ∈ base, isIdent p.1 = true) (hidn : ∀ p ∈ new, isIdent p.1 = true)
     (hnd : (new.map (·.1)).Nodup)
-    (halpha : ∀ p ∈ new, old.lookup p.1 ≠ some (some p.2) → InAlphabet p.2)
+    (halpha : ∀ p ∈ new, old.lookup p.1 ≠ some (some p.2) → Writable p.2)
     (hprot : ∀ k, isProtected k = true → base.has k = true → new.has k = true) (nl : Bool) :
     ∃ e, shEval base (emitText old new ++ (if nl then [10] else [])) = some e ∧ SameEnv e new := by
   refine ⟨applyAll (emitVarsOn {} old new) base, ?_, emitVars_apply old base new ht hnd hprot⟩
@@ -571,6 +595,11 @@ theorem tracks_run (base : Env) (a : Act) (s : SetupSt) (h : Tracks s.old base) 
   | alias f d k v =>
     simp only [Act.run, aliasAct]
     split <;> exact h
+  | push => exact h
+  | pop =>
+    simp only [Act.run, popAct]
+    split <;> exact h
+  | drop => exact h
 
 theorem tracks_runActs (acts : List Act) (base : Env) : Tracks (runActs false acts base).old base := by
   have : ∀ (s : SetupSt), Tracks s.old base → Tracks (acts.foldl (fun s a => a.run false s) s).old base := by
@@ -848,7 +877,7 @@ theorem emitVarsOn_apply (o : Opts) (hna : o.noaction = false) (old : OldEnv) (b
 
 theorem emitVarsOn_good (o : Opts) (old : OldEnv) (base new : Env) (ht : Tracks old base)
     (hidb : ∀ p ∈ base, isIdent p.1 = true) (hidn : ∀ p ∈ new, isIdent p.1 = true)
-    (halpha : ∀ p ∈ new, old.lookup p.1 ≠ some (some p.2) → InAlphabet p.2) :
+    (halpha : ∀ p ∈ new, old.lookup p.1 ≠ some (some p.2) → Writable p.2) :
     ∀ c ∈ emitVarsOn o old new, c.Good := by
   intro c hc
   simp only [emitVarsOn, List.mem_append, List.mem_filterMap] at hc
